@@ -486,6 +486,21 @@ def w_random(ctx, rng, i):
                    sample={"kind": kind, "n": n, "n_edges": len(E), "weighted": weighted} if i < 3 else None)
 
 
+def w_self_loops(ctx, rng, i):
+    """An edge list may join a vertex to itself: such an edge is reported like any other (structure queries only)."""
+    kind = ["U", "D", "PU", "PD"][i % 4]
+    directed = kind in ("D", "PD")
+    n = int(rng.integers(2, 12))
+    edges = gen.random_directed_edges(rng, n, 0.25) if directed else gen.random_undirected_edges(rng, n, 0.3)
+    loops = [(int(v), int(v)) for v in rng.choice(n, int(rng.integers(1, min(n, 3) + 1)), replace=False)]
+    edges = edges + loops
+    edges = [edges[j] for j in rng.permutation(len(edges))]
+    g = build(kind, n, edges, gen.points(rng, n, 2), int(rng.integers(0, 3)))
+    cls = type(g).__name__
+    judge_structure(ctx, g, n, edges, directed, cls + ":self_edges")
+    ctx.count_case(("self_loops", kind, n, len(loops)), nontrivial=True)
+
+
 def w_trees(ctx, rng, i):
     import menpo.shape as ms
     n = int(rng.integers(2, 41 if ctx.tier == "thorough" else 22))
@@ -588,6 +603,7 @@ def w_grids(ctx, rng, i):
 
 WORKLOADS = [
     Workload("grids", w_grids, quick=200, thorough=4000),
+    Workload("self_loops", w_self_loops, quick=400, thorough=8000),
     Workload("exhaustive_small", w_exhaustive, quick=N_SMALL, thorough=N_SMALL, exhaustive=True),
     Workload("random_graphs", w_random, quick=600, thorough=20000),
     Workload("random_trees", w_trees, quick=800, thorough=30000),
